@@ -510,12 +510,12 @@ Definition table : list review := [
     "Model/Huffman.v read_bits, Panic 10/11 = index out of bounds, guarded by the length test at the head; shift amounts bit_offset < 8, 8 - len, 16 - len with 1 <= len <= 8.  The u32 products `src.len() as u32 * 8` and `byte_offset * 8` cannot overflow any more: since the H1/F18 repair the only caller (prefix_string::decode) refuses Huffman strings whose bit length does not fit in u32 (len >= 2^29) before decoding; theorem C06_no_panic_huffman (hpack_decode_no_panic, C15) covers the model, whose unbounded bit positions are exact below that bound";
   mk_review "h3/src/qpack/prefix_string/decode.rs" "read_bits" K_cast 7 Modelled
     "Model/Huffman.v read_bits, Panic 10/11 = index out of bounds, guarded by the length test at the head; shift amounts bit_offset < 8, 8 - len, 16 - len with 1 <= len <= 8.  The u32 products `src.len() as u32 * 8` and `byte_offset * 8` cannot overflow any more: since the H1/F18 repair the only caller (prefix_string::decode) refuses Huffman strings whose bit length does not fit in u32 (len >= 2^29) before decoding; theorem C06_no_panic_huffman (hpack_decode_no_panic, C15) covers the model, whose unbounded bit positions are exact below that bound";
-  mk_review "h3/src/qpack/prefix_string/decode.rs" "DecodeIter::check_padding" K_arith 1 Guarded
-    "symbol_end % 8 < 8; symbol_end / 8 bounded by the content length";
-  mk_review "h3/src/qpack/prefix_string/decode.rs" "DecodeIter::check_padding" K_shift 1 Guarded
-    "symbol_end % 8 < 8; symbol_end / 8 bounded by the content length";
-  mk_review "h3/src/qpack/prefix_string/decode.rs" "DecodeIter::check_padding" K_arith 2 Guarded
-    "symbol_end % 8 < 8; symbol_end / 8 bounded by the content length";
+  mk_review "h3/src/qpack/prefix_string/decode.rs" "DecodeIter::check_padding" K_arith 1 Modelled
+    "Model/Huffman.v check_padding (Panic 40 = the u8 shift by symbol_end % 8; body anchored by Gen/GenHuffIter.v); symbol_end % 8 < 8 and symbol_end / 8 is bounded by the content length; theorems C06_no_panic_huffman / C06_no_panic_prefix_string (hpack_decode_no_panic, ps_decode_no_panic, C15) cover the site; audit mutant au1";
+  mk_review "h3/src/qpack/prefix_string/decode.rs" "DecodeIter::check_padding" K_shift 1 Modelled
+    "Model/Huffman.v check_padding (Panic 40 = the u8 shift by symbol_end % 8; body anchored by Gen/GenHuffIter.v); symbol_end % 8 < 8 and symbol_end / 8 is bounded by the content length; theorems C06_no_panic_huffman / C06_no_panic_prefix_string (hpack_decode_no_panic, ps_decode_no_panic, C15) cover the site; audit mutant au1";
+  mk_review "h3/src/qpack/prefix_string/decode.rs" "DecodeIter::check_padding" K_arith 2 Modelled
+    "Model/Huffman.v check_padding (Panic 40 = the u8 shift by symbol_end % 8; body anchored by Gen/GenHuffIter.v); symbol_end % 8 < 8 and symbol_end / 8 is bounded by the content length; theorems C06_no_panic_huffman / C06_no_panic_prefix_string (hpack_decode_no_panic, ps_decode_no_panic, C15) cover the site; audit mutant au1";
   mk_review "h3/src/qpack/prefix_string/decode.rs" "Iterator for DecodeIter::next" K_cast 1 Guarded
     "usize arithmetic on u32 values: byte * 8 + bit + count < 2^36";
   mk_review "h3/src/qpack/prefix_string/decode.rs" "Iterator for DecodeIter::next" K_arith 1 Guarded
